@@ -3,6 +3,7 @@ package props
 import (
 	"context"
 	"fmt"
+	"runtime"
 	"testing"
 	"time"
 
@@ -384,6 +385,104 @@ func TestC18Reserved(t *testing.T) {
 		col.Case(nt, fmt.Sprintf("%s/%d/%v", at.name, life, viaModule), canon, "attempt:"+at.name)
 		if f != nil {
 			rt.Fatalf("VIOLATION %s\n%s", f, canon)
+		}
+	})
+}
+
+// TestC18ContextKeepsScope: FromContext on a scope's context - or on anything derived from it -
+// returns that scope for as long as somebody holds the context: also when the context is all
+// that is left of the scope (the handle dropped, the scope closed and forgotten by its owner) and
+// the garbage collector has run.
+func TestC18ContextKeepsScope(t *testing.T) {
+	col := evid.New("C18", "context-outlives-handle", "a provider built from a generated configuration; a chain of 1-3 nested scopes created with nil / Background / cancellable contexts; of every scope only the context (and one derived from it) and the ID are kept, the scope handles are dropped, a generated subset of the scopes is closed first; runtime.GC runs twice; oracle: FromContext on each kept context and on the derived one returns a scope with the ID of the scope the context came from; the same for the root scope's context obtained through a resolution of context.Context on the provider; non-trivial = a closed scope's context was asked")
+	defer col.Flush()
+	rapid.Check(t, func(rt *rapid.T) {
+		cfg := kit.GenConfig(rt, kit.FullOpts())
+		w, err := kit.NewWorld(cfg)
+		if err != nil {
+			rt.Fatal(err)
+		}
+		coll := godi.NewCollection()
+		if err := w.RegisterAll(coll, nil); err != nil {
+			rt.Fatalf("registration failed: %v", err)
+		}
+		p, err := coll.Build()
+		if err != nil {
+			col.Case(false, cfg.String(), nil, "build-failed(not judged here)")
+			return
+		}
+		defer p.Close()
+		type kept struct {
+			id      string
+			ctx     context.Context
+			derived context.Context
+			closed  bool
+		}
+		var keep []kept
+		var allCancels []context.CancelFunc
+		defer func() {
+			for _, c := range allCancels {
+				c()
+			}
+		}()
+		nt := false
+		func() {
+			var parent godi.Provider = p
+			var cancels []context.CancelFunc
+			defer func() { allCancels = append(allCancels, cancels...) }() // nobody cancels before the end of the case
+			var scopes []godi.Scope
+			for i, n := 0, rapid.IntRange(1, 3).Draw(rt, "depth"); i < n; i++ {
+				var ctx context.Context
+				switch rapid.IntRange(0, 2).Draw(rt, "ctxKind") {
+				case 1:
+					ctx = context.Background()
+				case 2:
+					c, cancel := context.WithCancel(context.WithValue(context.Background(), kit.CtxCommonKey{}, i))
+					ctx = c
+					cancels = append(cancels, cancel)
+				}
+				s, err := parent.CreateScope(ctx)
+				if err != nil {
+					return
+				}
+				scopes = append(scopes, s)
+				d, dcancel := context.WithTimeout(context.WithValue(s.Context(), kit.CtxCommonKey{}, "derived"), time.Hour)
+				cancels = append(cancels, dcancel)
+				keep = append(keep, kept{id: s.ID(), ctx: s.Context(), derived: d})
+				parent = s
+			}
+			// close some, innermost first
+			for i := len(scopes) - 1; i >= 0; i-- {
+				if rapid.Bool().Draw(rt, "close") {
+					_ = scopes[i].Close()
+					keep[i].closed = true
+					for j := i + 1; j < len(keep); j++ {
+						keep[j].closed = true
+					}
+					nt = true
+				}
+			}
+		}()
+		if v, err := p.Get(kit.CtxType); err == nil {
+			if rs, err2 := p.Get(kit.ScopeType); err2 == nil {
+				keep = append(keep, kept{id: rs.(godi.Scope).ID(), ctx: v.(context.Context), derived: context.WithValue(v.(context.Context), kit.CtxCommonKey{}, "derived")})
+			}
+		}
+		time.Sleep(2 * time.Millisecond) // (watcher goroutines of the closed scopes end)
+		runtime.GC()
+		runtime.GC()
+		canon := fmt.Sprintf("%s || %d contexts kept", cfg, len(keep))
+		col.Case(nt, canon, canon)
+		for i, k := range keep {
+			for which, c := range map[string]context.Context{"the scope's context": k.ctx, "a context derived from the scope's context": k.derived} {
+				s, err := godi.FromContext(c)
+				if err != nil || s == nil {
+					rt.Fatalf("VIOLATION C18/from-context [context-outlives-handle/closed=%v]: FromContext(%s) of scope %s (#%d of the chain; closed=%v), whose handle was dropped, = %v, %v after a GC\n%s", k.closed, which, k.id, i, k.closed, s, err, canon)
+				}
+				if s.ID() != k.id {
+					rt.Fatalf("VIOLATION C18/from-context [context-outlives-handle/other-scope]: FromContext(%s) of scope %s yields scope %s\n%s", which, k.id, s.ID(), canon)
+				}
+			}
 		}
 	})
 }
